@@ -5,7 +5,25 @@ use serde_json::{json, Value};
 use std::io::Write;
 
 pub mod c01;
+pub mod c02;
+pub mod c03;
 pub mod c04;
+pub mod c05;
+pub mod c06;
+pub mod c07;
+pub mod c08;
+pub mod c09;
+pub mod c10;
+pub mod c11;
+pub mod c12;
+pub mod c13;
+pub mod c14;
+pub mod c15;
+pub mod c16;
+pub mod c17;
+pub mod c18;
+pub mod c19;
+pub mod c20;
 
 pub struct Tracer { f: std::io::BufWriter<std::fs::File>, pub n: usize }
 impl Tracer {
@@ -24,11 +42,30 @@ pub fn main(a: &[String]) {
     let n: usize = a[2].parse().expect("n");
     let mut t = Tracer { f: std::io::BufWriter::new(std::fs::File::create(&a[3]).expect("out")), n: 0 };
     let mut r = Rng::new(seed);
-    match driver {
-        "c01" => c01::drive(&mut t, &mut r, n),
-        "c04" => c04::drive(&mut t, &mut r, n),
+    let f: fn(&mut Tracer, &mut Rng, usize) = match driver {
+        "c01" => c01::drive,
+        "c02" => c02::drive,
+        "c03" => c03::drive,
+        "c04" => c04::drive,
+        "c05" => c05::drive,
+        "c06" => c06::drive,
+        "c07" => c07::drive,
+        "c08" => c08::drive,
+        "c09" => c09::drive,
+        "c10" => c10::drive,
+        "c11" => c11::drive,
+        "c12" => c12::drive,
+        "c13" => c13::drive,
+        "c14" => c14::drive,
+        "c15" => c15::drive,
+        "c16" => c16::drive,
+        "c17" => c17::drive,
+        "c18" => c18::drive,
+        "c19" => c19::drive,
+        "c20" => c20::drive,
         _ => { eprintln!("unknown driver {}", driver); std::process::exit(2); }
-    }
+    };
+    f(&mut t, &mut r, n);
     t.f.flush().unwrap();
     println!("{}", json!({"events": t.n}));
 }
